@@ -692,19 +692,32 @@ if parallel.use_mpi():
         and patch data to write using a :obj:`CatalogWriter`, terminated when
         receiving an :obj:`EndOfQueue` sentinel from every sending rank."""
         recv = parallel.COMM.recv
-        with CatalogWriter(
-            cache_directory,
-            chunk_info=chunk_info,
-            overwrite=overwrite,
-            buffersize=buffersize,
-            num_expected=num_expected,
-        ) as writer:
+
+        def receive_patches() -> Iterator[dict[int, TypeDataChunk]]:
+            nonlocal num_senders
             while num_senders > 0:
                 patches = recv(source=MPI.ANY_SOURCE, tag=1)
                 if patches is EndOfQueue:
                     num_senders -= 1
                 else:
+                    yield patches
+
+        try:
+            with CatalogWriter(
+                cache_directory,
+                chunk_info=chunk_info,
+                overwrite=overwrite,
+                buffersize=buffersize,
+                num_expected=num_expected,
+            ) as writer:
+                for patches in receive_patches():
                     writer.process_patches(patches)
+        except Exception:
+            # keep receiving until all senders are done, a blocking send to a
+            # writer that is gone would never return
+            for _ in receive_patches():
+                pass
+            raise
 
     def write_patches(
         path: Path | str,
